@@ -905,6 +905,8 @@ def _sweeper_all(rep, fl):
         for bi_, t_ in y.calls():
             c_ = y.callee_of(t_)
             if re.search(r"Iterator::(take|skip|step_by|take_while|skip_while|nth|nth_back|last|find|position)$|::(truncate|split_off|pop|swap_remove|drain)$", c_) and str((t_.get("sp") or {}).get("f", "")).startswith("src/"):
+                if c_.endswith("::drain") and whole_drain(norm(y.call_expr(t_, True))):
+                    continue   # `v.drain(..)`: every element, in order
                 trunc.append(c_.split("::")[-1])
     rep.check(not trunc, "R05.8", fl, root, "whole due set", "the sweeper examines every key of the due set it took from the expiry index",
               "the sweeper drops part of the due set (%s) after the expiry index has already forgotten those keys: they are never reclaimed nor handed to on_evict" % ", ".join(sorted(set(trunc))))
@@ -931,43 +933,15 @@ def check_tick(rep, fl):
     if ok:
         ebi, et = ev[0]
         pbi, pt = pe[0]
-        nexts = [(bi, t) for bi, t in hf.calls() if callee_matches(hf.callee_of(t), "Iterator::next") and ebi in hf.reachable(bi) and bi in hf.reachable(ebi)]
-        ok = len(nexts) == 1
+        its_ = [i_ for i_ in iterations(hf) if ebi in i_.region]
+        ok = len(its_) == 1
     if ok:
-        nbi, nt = nexts[0]
-        elem = ("field", ("downcast", norm(hf.call_expr(nt, True)), "Some"), "0")
-
-        def is_elem(e):
-            e = norm(e)
-            if e == elem or norm(hf.expand(e)) == elem:
-                return True
-            if e[0] == "var":
-                ds = var_def_exprs(hf, e, True)
-                return bool(ds) and all(d == elem for d in ds)
-            return False
-        some = None
-        for b2 in hf.succs(nbi):
-            for tgt, atom, pol in edge_literals(hf, b2):
-                if atom is not None and atom[0] == "variant" and atom[2] == "Some" and pol:
-                    some = tgt
-        src = norm(hf.expand(norm(hf.call_args(nt)[0])))
-        from_sweeper = any(is_call(c, fl.cleanup.split("::")[-1]) for c in calls_in(src))
-        if not from_sweeper:
-            for x in subexprs(src):
-                if x[0] in ("var", "tmp"):
-                    l = hf.name_local.get(x[1]) if x[0] == "var" else x[1]
-                    for d in (hf.defs.get(l, []) if isinstance(l, int) else []):
-                        if any(is_call(c, fl.cleanup.split("::")[-1]) for c in calls_in(norm(hf.def_expr(d[0], d[1], True)))):
-                            from_sweeper = True
-        ok = some is not None and is_elem(hf.call_args(et)[1]) and is_elem(hf.call_args(pt)[1]) and from_sweeper \
-            and must_pass_through(hf, [ebi], from_bi=some, exits=[nbi]) and must_pass_through(hf, [pbi], from_bi=some, exits=[ebi])
-        if ok:
-            # once per element: on_evict is not on a cycle that avoids the next() call
-            cut = [(p_, nbi) for p_ in hf.preds(nbi)]
-            again = set()
-            for s2 in hf.succs(ebi):
-                again |= hf.reachable(s2, removed_edges=cut)
-            ok = ebi not in again
+        it_ = its_[0]
+        org = it_.origin()
+        sweeper = fl.cleanup.split("::")[-1]
+        from_sweeper = any(is_call(c, sweeper) for c in calls_in(org))
+        ok = from_sweeper and it_.is_elem(hf.call_args(et)[1]) and it_.is_elem(hf.call_args(pt)[1]) and it_.every_round([ebi]) \
+            and must_pass_through(hf, [pbi], from_bi=it_.some, exits=[ebi]) and it_.once_per_round(ebi)
     rep.check(ok, "R05.7", fl, h, "on_evict per item", "every swept item goes through prepare_evict and callback.on_evict exactly once",
               "swept items are not handed to on_evict exactly once each")
     sp = fl.proc_fn("spawn")
